@@ -1136,6 +1136,11 @@ class Interp:
         if n in ("np.array", "np.asarray", "numpy.array"):
             return NArr(self.as_iter(args[0]))
         if n in ("np.arange", "numpy.arange"):
+            if len(args) == 2 and not kw and any(isinstance(a, Num) for a in args):
+                # symbolic start with a concrete length: the elements are start + j, numpy fixed-width integers
+                n_el = sp.simplify(_sym(args[1]) - _sym(args[0]))
+                if n_el.is_Integer and 0 <= int(n_el) <= 64:
+                    return NArr([Num(_sym(args[0]) + j, ("npint", _raw(args[0]), j)) for j in range(int(n_el))])
             if any(isinstance(a, Num) for a in args) or kw:
                 vals = [self.index(a) for a in args]
             else:
